@@ -87,7 +87,7 @@ theorem c02_empty_witness (hn : 0 < n) (hr : ReachableX n s) (t : Nat) :
         · have := this rfl; omega
         · exact Or.inr ⟨h1, h, e1, e2⟩
       · obtain ⟨_, _, _, _, e⟩ := h'; cases e
-      · obtain ⟨_, e⟩ := h'; cases e
+      · obtain ⟨_, _, e⟩ := h'; cases e
 
 /-- `full` is answered only if all `N` sequence numbers `head .. head+N-1` were taken when the same call loaded `head`:
     * at a `head` load that fails the admission test every sequence number of the window is published-and-unreleased or
@@ -116,7 +116,7 @@ theorem c02_full_witness (hn : 0 < n) (hr : ReachableX n s) (t : Nat) :
     · obtain ⟨_, _, _, _, _, e⟩ := h'; cases e
     · obtain ⟨_, _, _, _, e⟩ := h'; cases e
     · obtain ⟨_, _, _, _, e⟩ := h'; cases e
-    · obtain ⟨_, e⟩ := h'; cases e
+    · obtain ⟨_, _, e⟩ := h'; cases e
 
 /-- values leave in exactly the order they were accepted, sequence numbers `0, 1, 2, …` without gap or repetition -/
 theorem c02_fifo (hn : 0 < n) (hr : ReachableX n s) :
